@@ -147,7 +147,7 @@ func c08Vary(c *core.Ctx, x *gen.Spec, dns bool) (y *gen.Spec, aspect string) {
 			y.MatchCase = !x.MatchCase
 			aspect = "match-case"
 		}
-		if aspect != "" && y.Render(nil) != x.Render(nil) {
+		if aspect != "" && y.CanonKey() != x.CanonKey() {
 			return y, aspect
 		}
 	}
@@ -301,7 +301,7 @@ func c08Run(c *core.Ctx, idx int) {
 	for i, n := 0, c.Rng.Intn(7); i < n; i++ {
 		s := c08RandomSpec(c, c08Patterns[c.Rng.Intn(len(c08Patterns))], dns)
 		s.Badfilter = false
-		canon[s.Render(nil)] = true
+		canon[s.CanonKey()] = true
 		base = append(base, s.Render(c.Rng))
 	}
 	if dns && c.Rng.Intn(2) == 0 {
@@ -313,22 +313,22 @@ func c08Run(c *core.Ctx, idx int) {
 
 	// Extra rules: x1 and variations of it.
 	var x1 *gen.Spec
-	for try := 0; try < 50 && (x1 == nil || canon[x1.Render(nil)]); try++ {
+	for try := 0; try < 50 && (x1 == nil || canon[x1.CanonKey()]); try++ {
 		x1 = c08RandomSpec(c, "||ads.com^", dns)
 	}
-	if canon[x1.Render(nil)] {
+	if canon[x1.CanonKey()] {
 		c.Inconclusive("could-not-make-distinct-rule")
 
 		return
 	}
 	xs := []*gen.Spec{x1}
-	canon[x1.Render(nil)] = true
+	canon[x1.CanonKey()] = true
 	for i, k := 0, c.Rng.Intn(4); i < k; i++ {
 		y, _ := c08Vary(c, xs[c.Rng.Intn(len(xs))], dns)
-		if y == nil || canon[y.Render(nil)] {
+		if y == nil || canon[y.CanonKey()] {
 			continue
 		}
-		canon[y.Render(nil)] = true
+		canon[y.CanonKey()] = true
 		xs = append(xs, y)
 	}
 
